@@ -76,7 +76,7 @@ structure QuicPacketObj where
   deriving DecidableEq, Repr
 """]),
     "Suites": dict(imports=["TLX.PyRt", "TLX.CipherSuiteTypes"], decls=[]),
-    "TlsSess2": dict(imports=["TLX.PyRt", "TLX.Session"], decls=[]),
+    "TlsSess2": dict(imports=["TLX.PyRt", "TLX.Session"], decls=[], options=["set_option linter.unusedVariables false"]),
     # the frame class constructors call the two varint functions: this group rests on Varint's definitions
     "Frames": dict(imports=["TLX.PyRt", "TLX.Quic.FrameTypes", "TLX.Gen.Translated.Varint"], decls=[]),
 }
@@ -482,19 +482,20 @@ def sess_state_decl():
     return "\n".join(lines) + "\n"
 
 
-def sess_spec(func, params, ext, calls=(), **more):
+def sess_spec(func, params, ext, calls=(), name=None, **more):
     """a method of the family; `calls`: the family methods it calls (already declared)"""
+    name = name or func
     need = list(ext)
     for c in calls:
         need += [e for e in SESS_NEEDS[c] if e not in need]
     need = [e for e in SESS_EXT if e in need]
-    SESS_NEEDS[func] = need
+    SESS_NEEDS[name] = need
     sc = {k: v for k, v in SESS_METHODS.items() if v["lean"] in need}
     for c in calls:
         cs = next(x for x in SPECS if x["name"] == "Sess." + c)
         sc["self." + c] = dict(kind="shared", lean="Sess." + c, exts=SESS_NEEDS[c], args=[t for _, t in cs["params"]],
                                rplaces=["self.exp_meta"], ret="None")
-    spec = dict(name="Sess." + func, group="TlsSess2", file="tlexport/session.py", func="Session." + func, params=params, ret="None",
+    spec = dict(name="Sess." + name, group="TlsSess2", file="tlexport/session.py", func="Session." + func, params=params, ret="None",
                 tparams=["δ"], state=dict(type=SESS_ST, param="st"), always_res=True, places=SESS_PLACES, maybe_attrs=SESS_MAYBE,
                 pairdicts={"self.handshake_13_buffer": 'b""'}, consts=TLSVER, attr_funcs=REC_ATTRS,
                 externals=[SESS_EXT[e] for e in need], state_calls=sc)
@@ -502,7 +503,7 @@ def sess_spec(func, params, ext, calls=(), **more):
     SPECS.append(spec)
 
 
-SPECS.append(dict(name="TlsRecord_init", group="TlsSess2", file="tlexport/tlsrecord.py", func="TlsRecord.__init__",
+SPECS.append(dict(name="TlsRecord_init", group="TlsSess2", file="tlexport/tlsrecord.py", func="TlsRecord.__init__", theorem="Sess.TlsRecord_init_eq_model",
                   params=[("binary", "Bytes")], ret="None", raise_state=False, ignore_writes=["self.metadata", "self.isserver"],
                   places=[("self.binary", "binary_", "Bytes", "rw"), ("self.record_type", "record_type", "Nat", "rw"),
                           ("self.record_version", "record_version", "Bytes", "rw"), ("self.record_length", "record_length", "Bytes", "rw"),
@@ -522,6 +523,11 @@ sess_spec("handle_tls_13_application_record", RS, ["decrypt"], calls=["handle_de
 sess_spec("handle_tls_application_record", RS, ["decrypt"])
 sess_spec("handle_tls_record", RS, [], calls=["handle_tls_handshake_record", "handle_tls_13_application_record",
                                               "handle_tls_application_record", "handle_alert"])
+# get_tls_records: the two loops that hand the records of one direction on, in order (an exception ends the run there)
+for _d, _flag in (("server", "True"), ("client", "False")):
+    sess_spec("get_tls_records", [], [], calls=["handle_tls_record"], name=f"run_{_d}_records",
+              select={"start": f"for record in self.{_d}_tls_records"},
+              places=SESS_PLACES + [(f"self.{_d}_tls_records", "records", f"List {REC}", "r")])
 
 THEOREMS = _uniq(theorem_of(s) for s in SPECS)
 
@@ -543,15 +549,15 @@ MODULES = group_modules(GROUPS)          # all groups (`TLX.Props.Translated` im
 
 # property → the groups whose translated functions its model functions are (what the check proves besides its own modules)
 CHECK_GROUPS = {
-    "C01": ["TlsSess", "Suites"],
+    "C01": ["TlsSess", "Suites", "TlsSess2"],
     "C02": ["QuicDissect", "QuicSess", "Pn", "Varint", "Frames", "QuicDissect2"],
-    "C03": ["TlsSess", "QuicDissect", "Varint", "QuicDissect2"],
+    "C03": ["TlsSess", "QuicDissect", "Varint", "QuicDissect2", "TlsSess2"],
     "C04": ["Demux", "QuicSess", "QuicDissect"],
     "C05": ["Reasm"],
     "C07": ["Ports"],
     "C10": ["Ports"],
     "C11": ["Checksum"],
-    "C13": ["TlsSess"],
+    "C13": ["TlsSess", "TlsSess2"],
     "C14": ["Suites"],
     "C16": ["Pn"],
     "C17": ["Varint", "Frames"],
@@ -678,7 +684,7 @@ def translate_all(root, specs=None):
         head = ["/- GENERATED by harness/translate.py (py2lean) from the Python sources of the tree under test — do not edit.",
                 f"   Group {g}: one definition per translated function; the meaning of the operations is `TLX/PyRt.lean`. -/"]
         head += [f"import {m}" for m in cfg["imports"]]
-        head += ["namespace TLX.Gen.Py", "open TLX", ""] + cfg["decls"]
+        head += cfg.get("options", []) + ["namespace TLX.Gen.Py", "open TLX", ""] + cfg["decls"]
         files[f"Translated/{g}.lean"] = "\n".join(head + body[g] + ["end TLX.Gen.Py", ""])
     files["Translated.lean"] = "\n".join(
         ["/- GENERATED by harness/translate.py — do not edit. All groups of translated definitions. -/"]
@@ -1166,6 +1172,12 @@ def _cases(rng, n):
                     f"client_random := some {_b(me.client_random)}, client_hello_seen := {_bool(me.client_hello_seen)} }}"))
         for _ in range(4):
             out.append(_sess_case(rng, ses, vers, call))
+        from tlexport.tlsrecord import TlsRecord
+        rawr = rb(0, 9)
+        me = NS()
+        k, v = call(TlsRecord.__init__, me, rawr, [], False)
+        out.append(("TlsRecord_init", _b(rawr), (f".ok {{ binary_ := {_b(me.binary)}, record_type := {me.record_type}, record_version := {_b(me.record_version)}, "
+                                                 f"record_length := {_b(me.record_length)}, raw := {_b(me.raw)} }}") if k == "ok" else f".error .{v}"))
         # output builders
         pm = rng.choice([{}, {443: 8443}, {443: 8443, 5000: 1}])
         sp, keep = rng.choice([443, 5000, 80]), rng.random() < 0.5
